@@ -17,8 +17,12 @@ SPEC = Spec(
         Harness(name="graph", module="service", pkg="service/internal/graph",
                 files={"zz_verif_c11_graph_test.go": "c11/graph_test.go"},
                 test="TestVerifC11Graph", driver="drv_c11", n={"quick": 800, "thorough": 10000}),
+        Harness(name="extensions", module="service", pkg="service/extensions",
+                files={"zz_verif_c11_ext_test.go": "c11/extensions_test.go"},
+                test="TestVerifC11Extensions", driver="drv_c11", n={"quick": 500, "thorough": 5000}),
     ],
-    rule="graph: real graph.Build/StartAll/ShutdownAll with components that report random statuses from Start, while running (one goroutine "
+    rule="extensions: real extensions.New/Start/Shutdown with 1-5 extensions failing Start/Shutdown at random, per-extension events "
+         "compared with Life.events; non-trivial = some failure. graph: real graph.Build/StartAll/ShutdownAll with components that report random statuses from Start, while running (one goroutine "
          "per instance) and from Shutdown and that fail Start/Shutdown at random; per-instance events compared with Life.events; "
          "non-trivial = some component reports itself. reporter: random report sequences (0-30 reports, 1-3 instances, all 8 statuses + ReportOKIfStarting) against the real "
          "status.Reporter, every 5th case concurrent goroutines (monitored); non-trivial = contains an illegal report or is concurrent. "
